@@ -246,7 +246,9 @@ func (r *Rule) doEvaluate(logger debuglog.Logger, phase types.RulePhase, tx *Tra
 			for _, c := range ecol {
 				if c.Variable == v.Variable {
 					// TODO shall we check the pointer?
-					v.Exceptions = append(v.Exceptions, ruleVariableException{c.KeyStr, c.KeyRx})
+					// v is a copy of the rule's target but its Exceptions slice still shares the rule's
+					// backing array: cap the slice so that append never writes into the shared rule.
+					v.Exceptions = append(v.Exceptions[:len(v.Exceptions):len(v.Exceptions)], ruleVariableException{c.KeyStr, c.KeyRx})
 				}
 			}
 
